@@ -154,6 +154,10 @@ ROWS = {
     'sibling-path-2nd': (['def string A0 = 7', 'def path M0 = -rel-act 7', 'def string M = "@[A0]@@[M0]@"'], 'string', False),
     'sibling-list-deep': (['def string A0 = 7', 'def list L0 = 7', 'def string B0 = @[L0]@', 'def string M = "@[A0]@@[B0]@"'], 'string', False),
     'list-of-path': (['def path M0 = -rel-act 7', 'def list M = a @[M0]@'], 'list', True),
+    'file-matcher': (['def file-matcher M = type file'], 'file-matcher', True),
+    'files-matcher': (['def files-matcher M = is-empty'], 'files-matcher', True),
+    'line-matcher': (['def line-matcher M = line-num == 1'], 'line-matcher', True),
+    'file-matcher-of-matchers': (['def text-matcher M0 = is-empty', 'def file-matcher M1 = contents M0', 'def file-matcher M = M1 || type dir'], 'file-matcher', True),
 }
 SLP = {'string', 'list', 'path'}
 CONTEXTS = {
@@ -182,6 +186,12 @@ CONTEXTS = {
     'transformer': ('assert', ['stdout -transformed-by M ! constant false'], {'text-transformer'}, False),
     'int-matcher': ('assert', ['exit-code ! M'], {'integer-matcher'}, False),
     'run-sym': ('before-assert', ['run @ M'], {'program'}, False),
+    # contexts whose instruction resolves symbols in a validation step AFTER [setup] (with "same-phase" definitions the symbol is defined in [assert] itself)
+    'exists-file-matcher': ('assert', ['exists @[EXACTLY_ACT]@ : M'], {'file-matcher'}, False),
+    'exists-file-matcher-2nd': ('assert', ['exit-code >= 0', 'exists @[EXACTLY_TMP]@ : ! M'], {'file-matcher'}, False),
+    'dir-contents-files-matcher': ('assert', ['dir-contents @[EXACTLY_TMP]@ : M'], {'files-matcher'}, False),
+    'line-matcher-in-assert': ('assert', ['stdout every line : M'], {'line-matcher'}, False),
+    'exists-in-before-assert-def': ('assert', ['exists @[EXACTLY_ACT]@ : ( M || type dir )'], {'file-matcher'}, False),
 }
 
 
@@ -234,6 +244,40 @@ def _twice(res, case, w, seam):
                 ' / '.join(cli.stderr_lines(o.err)[-2:])[:200]))
         errs += _no_effects(w, seam)
     res.outcomes[('twice', a1, a2, o.ident)] += 1
+    res.nontrivial += 1
+    if errs:
+        res.violation(case, errs, {'file': text})
+    return res
+
+
+# references to non-ASCII names that must be REJECTED (a reference that is not recognised as one would silently be kept as text)
+UNI_REJECT = [
+    (['run % probe @[\u00e9_undefined]@'], 'an undefined symbol'),
+    (['def string \u00e9 = v', 'run % probe "a @[\u00e9x]@ b"'], 'an undefined symbol (a longer name than the defined one)'),
+    (['def list l\u00e9 = a b', 'timeout = @[l\u00e9]@'], 'a list where an integer (string) is demanded'),
+    (['def path p\u00e9 = -rel-home 7', "file -rel p\u00e9 out.txt = 'x'"], 'a home-relative path symbol as the root of a file to create'),
+    (['def list l\u00e9 = a b', 'def string s\u00e9 = "@[l\u00e9]@"', 'def path q = -rel-act @[s\u00e9]@'], 'a list inside a string used as a path component'),
+    (['run % probe x', 'def string \u00e9 = v', '[cleanup]', 'def string \u00e9 = again'], 'a duplicate definition'),
+]
+
+
+def _uni_reject(res, case, w, seam):
+    lines, what = UNI_REJECT[case[1]]
+    body = []
+    phase_lines = {'setup': [], 'cleanup': []}
+    cur = 'setup'
+    for l in lines:
+        if l == '[cleanup]':
+            cur = 'cleanup'
+        else:
+            phase_lines[cur].append(l)
+    text = '[setup]\n' + '\n'.join(phase_lines['setup']) + '\n[act]\n% atc\n[cleanup]\n' + '\n'.join(phase_lines['cleanup']) + '\n'
+    o = cli.run_case(text)
+    errs = []
+    if o.ident != 'VALIDATION_ERROR' or o.rc != 65:
+        errs.append('%s with a non-ASCII name must be rejected before execution: got %s / %s' % (what, o.ident, ' / '.join(cli.stderr_lines(o.err)[-2:])[:200]))
+    errs += _no_effects(w, seam)
+    res.outcomes[('uni-reject', o.ident)] += 1
     res.nontrivial += 1
     if errs:
         res.violation(case, errs, {'file': text})
@@ -295,13 +339,17 @@ def cases(tier):
             yield ('prog', prog, order)
     for row in ROWS:
         for ctx in CONTEXTS:
-            for defphase in ('setup', 'same'):
+            for defphase in ('setup', 'same', 'before-assert'):
+                if defphase == 'before-assert' and CONTEXTS[ctx][0] != 'assert':
+                    continue
                 yield ('type', row, ctx, defphase)
     for i in range(len(VALUE_CASES)):
         yield ('value', i)
     for row in ROWS:
         for ti in range(len(TWO_SLOT)):
             yield ('twice', row, ti)
+    for i in range(len(UNI_REJECT)):
+        yield ('uni-reject', i)
     # [cleanup] runs whatever happened: its references must evaluate to the defined values also when execution stopped early
     for fphase in ('setup', 'before-assert', 'assert'):
         for dphase in ('setup', 'before-assert', 'assert'):
@@ -329,6 +377,8 @@ def run(case) -> Result:
         return _type(res, case, w, seam)
     if k == 'twice':
         return _twice(res, case, w, seam)
+    if k == 'uni-reject':
+        return _uni_reject(res, case, w, seam)
     if k == 'cleanup-ref':
         return _cleanup_ref(res, case, w, seam)
     return _value(res, case, w, seam)
@@ -377,7 +427,7 @@ def _type(res, case, w, seam):
     defs, typ, pure = ROWS[row]
     cphase, clines, accepts, needs_pure = CONTEXTS[ctx]
     blocks = {p: [] for p in PHASES}
-    dph = 'setup' if (defphase == 'setup' or cphase == 'act') else cphase
+    dph = 'setup' if (defphase == 'setup' or cphase == 'act') else (cphase if defphase == 'same' else defphase)
     if PHASES.index(dph) > PHASES.index(cphase):
         dph = 'setup'
     blocks[dph] += defs
@@ -422,6 +472,11 @@ VALUE_CASES = [
     (['def path C = here', 'run % probe @[C]@', 'dir d2', 'cd d2'], 'run % probe @[C]@', ['<ACT>/d2/here']),
     (['def string A = a', 'def string B = @[A]@@[A]@', 'def string C = "@[B]@-@[A]@"'], 'run % probe @[C]@ @[EXACTLY_ACT]@ @[EXACTLY_TMP]@', ['aa-a', '<ACT>', '<TMP>']),
     (["def string N = 3", 'def string M = "@[N]@+4"'], 'timeout = @[M]@\nrun % probe x', ['x']),
+    # symbol names are made of letters, digits and _ - letters of any script
+    (["def string \u00e9 = 'e-acute'", 'def string gr\u00f6\u00dfe2 = G', 'def list \u540d\u524d = n1 "n 2"', 'def path p\u00e9 = -rel-act pp', 'def string x\u0663 = d'],
+     'run % probe @[\u00e9]@ "a @[gr\u00f6\u00dfe2]@ b" pre@[\u00e9]@post @[\u540d\u524d]@ "@[\u540d\u524d]@" @[p\u00e9]@/leaf @[x\u0663]@',
+     ['e-acute', 'a G b', 'pree-acutepost', 'n1', 'n 2', 'n1 n 2', '<ACT>/pp/leaf', 'd']),
+    (["def string \u00e9 = 'v'", 'def string \u00e92 = "@[\u00e9]@@[\u00e9]@"', 'def list L\u00e9 = @[\u00e92]@ x'], 'run % probe @[L\u00e9]@', ['vv', 'x']),
 ]
 
 
